@@ -102,3 +102,61 @@ Proof.
   rewrite Hc in A, B, C, D. rewrite map_ext with (g := write_table tp) in A, B by reflexivity.
   repeat split; assumption.
 Qed.
+
+(* ---------- EVERY way of cutting a run into consecutive chunks ----------
+   Where WriteRun cuts is a writer-side policy (target, look-ahead factor); the round trip does not depend on it. *)
+Lemma keys_sorted_chunks chunks : keys_sorted (concat chunks) = true -> Forall (fun c => keys_sorted c = true) chunks.
+Proof.
+  induction chunks as [|c cs IH]; intros H; [constructor|]. cbn [concat] in H.
+  destruct (keys_sorted_app c (concat cs) H) as (Hc & Hr & _). constructor; [exact Hc|exact (IH Hr)].
+Qed.
+
+Lemma run_ok_chunks chunks : run_ok (concat chunks) -> Forall run_ok chunks.
+Proof.
+  intros (Hok & Hs & Hsz). pose proof (keys_sorted_chunks chunks Hs) as Hsorted.
+  apply Forall_forall. intros c Hin.
+  apply in_split in Hin. destruct Hin as (l1 & l2 & Hl). subst chunks.
+  rewrite concat_app in Hok, Hsz. cbn [concat] in Hok, Hsz.
+  split; [|split].
+  - apply Forall_app in Hok. destruct Hok as [_ Hok]. apply Forall_app in Hok. apply Hok.
+  - apply Forall_app in Hsorted. destruct Hsorted as [_ Hsorted]. inversion Hsorted; assumption.
+  - rewrite !ser_entries_app, !blen_app in Hsz. unfold blen in *.
+    assert (forall a b c : nat, (N.of_nat a + (N.of_nat b + N.of_nat c) < 4294967296) -> N.of_nat b < 4294967296) as Hl3
+      by (intros; Lia.lia).
+    eapply Hl3. exact Hsz.
+Qed.
+
+Theorem any_cut_reads_back tp chunks : params_ok tp -> run_ok (concat chunks) ->
+  Forall (fun c => (forall key, table_get (write_table tp c) key = get_spec c key) /\
+                   (forall key, table_get (reopen (write_table tp c)) key = get_spec c key) /\
+                   (forall p, table_scan_prefix (write_table tp c) p = Some (scan_spec c p)) /\
+                   (forall p, table_scan_prefix (reopen (write_table tp c)) p = Some (scan_spec c p))) chunks /\
+  (forall p, level_scan (map (write_table tp) chunks) p = Some (scan_spec (concat chunks) p)) /\
+  (forall key, level_get (map (write_table tp) chunks) key = get_spec (concat chunks) key) /\
+  (forall p, level_scan (map (fun c => reopen (write_table tp c)) chunks) p = Some (scan_spec (concat chunks) p)) /\
+  (forall key, level_get (map (fun c => reopen (write_table tp c)) chunks) key = get_spec (concat chunks) key).
+Proof.
+  intros Hp Hrun. pose proof (run_ok_chunks chunks Hrun) as Hcs.
+  assert (H : Forall (fun c => (forall key, table_get (write_table tp c) key = get_spec c key) /\
+                   (forall key, table_get (reopen (write_table tp c)) key = get_spec c key) /\
+                   (forall p, table_scan_prefix (write_table tp c) p = Some (scan_spec c p)) /\
+                   (forall p, table_scan_prefix (reopen (write_table tp c)) p = Some (scan_spec c p))) chunks).
+  { eapply Forall_impl; [|exact Hcs]. intros c Hc.
+    split; [intros key; apply table_get_is_find; assumption|].
+    split; [intros key; apply table_get_reopen_is_find; assumption|].
+    destruct Hc as (Ho & _ & Hz).
+    split; [intros p; apply table_scan_is_filter; exact Ho|intros p; apply table_scan_reopen_is_filter; assumption]. }
+  split; [exact H|].
+  destruct (level_read_chunks tp (fun t => t) chunks) as [A B].
+  { eapply Forall_impl; [|exact H]. intros c (G & _ & S & _). split; assumption. }
+  destruct (level_read_chunks tp reopen chunks) as [C D].
+  { eapply Forall_impl; [|exact H]. intros c (_ & G & _ & S). split; assumption. }
+  rewrite map_ext with (g := write_table tp) in A, B by reflexivity.
+  repeat split; assumption.
+Qed.
+
+(* non-empty consecutive chunks of a strictly sorted run have disjoint, ascending key ranges *)
+Theorem any_cut_ranges chunks :
+  Forall (fun c => c <> []) chunks -> keys_sorted (concat chunks) = true ->
+  ranges_ascending chunks /\ Forall (fun c => keys_sorted c = true) chunks.
+Proof. apply chunks_ranges. Qed.
